@@ -43,12 +43,13 @@ Theorem C21_outcome :
         <-> (x = EPIPE \/ x = EFBIG)).
 Proof. exact outcome. Qed.
 
-(* sharper: the outcome and the number of diagnostics are a function of
-   (errno, signal generated, disposition) alone *)
+(* sharper: the outcome and the number of diagnostics are those of the canonical
+   schedule [predict] (failing thread first, then the main thread, nobody else moves):
+   a function of (role, errno, signal generated, disposition) alone *)
 Theorem C21_outcome_exact :
   forall r x generated dfl main_suspended others sch o,
     k_res (s_core (run_fault r x generated dfl main_suspended others sch)) = Some o ->
-    o = fst (predict r x generated dfl) /\
+    Some o = fst (predict r x generated dfl) /\
     k_printed (s_core (run_fault r x generated dfl main_suspended others sch)) = snd (predict r x generated dfl).
 Proof. exact outcome_exact. Qed.
 
